@@ -33,6 +33,9 @@ CHECKS = {
  "C08": dict(level="model_checking", technique="explicit-state BFS over operation histories against a reference map, crash-point enumeration by killing child processes, and preemption-bounded schedule exploration of concurrent pushes",
    text="E2: BFS over the states of a reference map (records, parts, pending, property, expiry vs virtual clock) with a 25-event alphabet (push A/B/four fragments of C incl. an overlapping one, four kinds of update, delete, advance, sweep, close+reopen) to depth 3 (quick) / 5 (thorough); every transition's history is replayed on a real store and every query, part read-back and completeness answer compared. E4: for short histories every instrumented point (every call statement in pkg/storage and every Write of the part file) of the last operation: a child process is killed exactly there, the store reopened by another process, which must find the state before or after the operation, and repeating the operation must give the reference state. E3: all schedules of 2-3 threads pushing different fragments of one bundle up to a preemption bound under the cooperative scheduler.",
    note="Trusted: badger's crash consistency under process kill (not power loss); vinstr points in pkg/storage; vsync shim. E3 assumes atomicity between schedule points (sync operations and storage call statements).", design="3/C08"),
+ "C05": dict(level="model_checking", technique="explicit-state BFS over event histories of a real routing.Core per routing algorithm (replay from scratch, state matching on observable state), invariants evaluated in every state",
+   text="For each routing algorithm (epidemic, spray, binary_spray, prophet, dtlsr, sensor-mule) a real Core with mock convergence senders and a mock agent is driven under the virtual clock through every event history up to a depth bound (quick 3-4, thorough 5) from the initial state and from two non-initial roots; 22-event alphabet (submission via SendBundle and via the agent path, clock-less and aged bundles, reception with previous node, peers up/down, send outcomes, retry tick, store-cleaning tick, clock advances around the lifetime, restart). In every reached state: an accepted, unexpired, never successfully transmitted bundle is in the store and pending; a held bundle is handed to its destination as soon as that is a connected peer; under epidemic every newly connected peer lacking the bundle is offered it; cleaning never removes an unexpired bundle; all of it also after restart.",
+   note="Trusted: routing/cla bridges (single calls), vtime, serialised per-peer sender goroutines of Core.forward for deterministic replays (their interleavings: schedule exploration, see DESIGN). Cron wiring of the retry/cleaning jobs checked separately.", design="3/C05"),
 }
 NA_REASON = "check not built yet in this round (planned in DESIGN.md section 3)"
 
